@@ -55,6 +55,11 @@ valid_resp = st.fixed_dictionaries({'src': st.just('vresp'), 'inst': st.sampled_
                                     'cut': st.sampled_from([0, 0, 1, 3, 10, 15, 16, 17])})
 
 
+# answers to the service-type enumeration (announcement or goodbye of a type, possibly in another letter case than before)
+enum_resp = st.fixed_dictionaries({'src': st.just('enum'), 'k': st.integers(0, 1), 'ttl': st.sampled_from([4500, 4500, 0, 0, 1]),
+                                   'recase': st.booleans()})
+
+
 @st.composite
 def hostile_resp(draw) -> Dict[str, Any]:
     """A response about the browsed type (or the host's own names) whose record data carries odd-but-parsable labels: pointer
@@ -81,7 +86,7 @@ def short_name_msg(draw) -> Dict[str, Any]:
 @st.composite
 def item(draw) -> Dict[str, Any]:
     d = draw(st.one_of(c02.msg_case(True), c02.msg_case(True), c02.msg_case(False), c02.graph_case(), hostile_query(), hostile_query(),
-                       valid_query, valid_resp, valid_resp, hostile_resp(), short_name_msg(),
+                       valid_query, valid_resp, valid_resp, hostile_resp(), short_name_msg(), enum_resp,
                        st.builds(lambda n, s: {'src': 'rand', 'len': n, 'seed': s, 'hdr': 'sane'}, st.integers(0, 300), st.integers(0, 2**32))))
     # gaps include hours: timers armed by earlier datagrams (refresh schedules, purges, queues) must survive too
     return {'d': d, 'gap': draw(st.sampled_from([0, 0, 1, 50, 500, 1100, 5000, 5000, 850000, 1130000, 3400000, 4600000])), 'port': draw(st.sampled_from([5353, 5353, 40001, 1])),
@@ -106,11 +111,26 @@ def _cut_announcement_case(draw, tier: str) -> Dict[str, Any]:
     return {'socks': 'dual', 'seed': draw(st.integers(0, 10**6)), 'canary_junk': None, 'stream': stream}
 
 
+@st.composite
+def _enumeration_case(draw, tier: str) -> Dict[str, Any]:
+    """Directed shape: the application enumerates service types while a type is announced and then withdrawn - the goodbye possibly
+    in another letter case than the announcement (names are matched case-insensitively; callbacks carry the datagram's spelling)."""
+    stream = draw(st.lists(item(), min_size=0, max_size=6))
+    k_ = draw(st.integers(0, 1))
+    mk = lambda ttl, rc, gap: {'d': {'src': 'enum', 'k': k_, 'ttl': ttl, 'recase': rc}, 'gap': gap, 'port': 5353, 'family': 'v4', 'sock': 0,
+                               'client': 0, 'oversize': None, 'app': None}
+    pos = draw(st.integers(0, len(stream)))
+    stream[pos:pos] = [mk(4500, draw(st.booleans()), draw(st.sampled_from([0, 50]))), mk(0, draw(st.booleans()), draw(st.sampled_from([1100, 1500, 5000])))]
+    return {'socks': draw(st.sampled_from(['v4', 'dual'])), 'seed': draw(st.integers(0, 10**6)), 'canary_junk': None, 'stream': stream,
+            'find': draw(st.sampled_from([60, 600]))}
+
+
 def strategy(tier: str):
     general = st.fixed_dictionaries({'socks': st.sampled_from(['v4', 'v4', 'dual']), 'seed': st.integers(0, 10**6),
                                      'canary_junk': st.sampled_from([None, 200, 500, 900]),
+                                     'find': st.sampled_from([None, None, None, 5, 60]),
                                      'stream': st.lists(item(), min_size=1, max_size=40 if tier == 'thorough' else 25)})
-    return st.integers(0, 11).flatmap(lambda k: _cut_announcement_case(tier) if k == 0 else general)
+    return st.integers(0, 11).flatmap(lambda k: _cut_announcement_case(tier) if k == 0 else _enumeration_case(tier) if k == 1 else general)
 
 
 def build(d: Dict[str, Any]) -> bytes:
@@ -174,6 +194,11 @@ def build(d: Dict[str, Any]) -> bytes:
         if d['with_announcement']:
             rrs.append(rp.wire_rr_of_ident(('PTR', TYPE_B, 'peer3.' + TYPE_B), 4500))
         return wire.encode({'id': 0, 'flags': 0x8400, 'qd': [], 'an': rrs, 'ns': [], 'ar': []})
+    if src == 'enum':
+        t_ = ['_Printer._tcp.local.', '_scanner._udp.local.'][d['k']]
+        if d['recase']:
+            t_ = t_.swapcase()
+        return wire.encode({'id': 0, 'flags': 0x8400, 'qd': [], 'an': [rp.wire_rr_of_ident(('PTR', rp.ENUM, t_), d['ttl'])], 'ns': [], 'ar': []})
     if src == 'vresp':
         name = f'peer{d["inst"]}.{TYPE_B}'
         rrs = [rp.wire_rr_of_ident(('PTR', TYPE_B, name), d['ttl']),
@@ -248,6 +273,13 @@ class Exec:
         await asyncio.sleep(1.5)
         self.lookup = asyncio.ensure_future(AsyncServiceInfo(TYPE_B, LOOKUP_NAME).async_request(v.zc, 10000))
         self.side: List[Any] = []
+        self.finder: Any = None
+        if case.get('find'):
+            # the application is enumerating the service types on the link while the stream arrives (its listener lives in the library)
+            from zeroconf.asyncio import AsyncZeroconfServiceTypes
+
+            self.finder = asyncio.ensure_future(AsyncZeroconfServiceTypes.async_find(aiozc=v.azc, timeout=case['find']))
+            await asyncio.sleep(0.01)
         self.side_cancelled = 0
         rnd = random.Random(case['seed'])
         for it in case['stream']:
@@ -401,6 +433,9 @@ class Exec:
         await asyncio.sleep(4600.0)
         self.lookup_state = ('done', self.lookup.exception() if not self.lookup.cancelled() else 'cancelled') if self.lookup.done() else ('pending', None)
         # lookups the application started during the stream: returned, or were cancelled by it - nothing else
+        self.finder_state = None
+        if self.finder is not None:
+            self.finder_state = 'pending' if not self.finder.done() else repr(self.finder.exception()) if self.finder.exception() else 'ok'
         self.side_state = [('pending' if not t.done() else 'cancelled' if t.cancelled() else repr(t.exception()) if t.exception() else 'ok')
                            for t in self.side]
 
@@ -468,6 +503,11 @@ def check(case: Dict[str, Any]) -> Dict[str, Any]:
         classes.append('hostile-but-parsable-from-legacy-port')
     if getattr(ex, 'side_cancelled', 0):
         classes.append('application-cancelled-a-lookup-as-a-datagram-arrived')
+    if getattr(ex, 'finder_state', None) not in (None, 'ok'):
+        raise Violation('the type enumeration the application was running (AsyncZeroconfServiceTypes.async_find) died or hung',
+                        {'state': ex.finder_state}, tag='finder-' + str(ex.finder_state)[:40])
+    if case.get('find'):
+        classes.append('type-enumeration-running-during-the-stream')
     if ex.canary.get('reannounce_judged'):
         classes.append('instance-of-the-stream-announced-again-and-judged')
     if ex.second_pointer:
